@@ -92,7 +92,7 @@ BUILTIN_CLASSES = {"str", "int", "float", "bool", "list", "tuple", "dict", "set"
 BUILTIN_FUNCS = {"len", "abs", "min", "max", "sum", "any", "all", "isinstance", "round", "hash", "print", "sorted",
                  "hasattr", "getattr", "issubclass", "id", "repr", "iter", "next", "callable", "map", "filter"}
 SPEC_FUNCS = {"local", "is_new", "implies", "forall", "exists", "old", "iff", "ite", "fresh_ref", "allocated", "is_old", "count_if",
-              "unfold", "lower", "typeof", "same_type", "result_is_new", "distinct"}
+              "unfold", "lower", "typeof", "same_type", "result_is_new", "distinct", "well_typed"}
 
 
 class Interp(Ops, Builtins, DynOps):
@@ -898,7 +898,8 @@ class Interp(Ops, Builtins, DynOps):
         c = self.contracts.get(fi.fq)
         if c is not None and c.cut and self.verifying != fi.fq and not (self.spec and c.returns is None):
             return self.apply_contract(fi, c, args, kwargs, node)
-        if fi.is_abstract:
+        if fi.is_abstract and all(isinstance(b, ast.Pass) or (isinstance(b, ast.Expr) and isinstance(b.value, ast.Constant)) for b in fi.node.body):
+            # an @abstractmethod with a real body may be reached through super(): it runs like any other method
             raise EngineError(f"call of abstract method {fi.fq}")
         if self.inline_depth > self.max_inline_depth:
             raise EngineError(f"inline depth exceeded at {fi.fq}")
@@ -1043,12 +1044,16 @@ class Interp(Ops, Builtins, DynOps):
 
     def declared_type(self, target, fr):
         c = self.contracts.get(fr.fi.fq) if fr.fi is not None else None
-        if c is None:
-            return None
         if isinstance(target, ast.Name):
-            return c.locals.get(target.id)
+            return c.locals.get(target.id) if c is not None else None
         if isinstance(target, ast.Attribute) and isinstance(target.value, ast.Name):
-            return c.locals.get(f"{target.value.id}.{target.attr}")
+            t = c.locals.get(f"{target.value.id}.{target.attr}") if c is not None else None
+            if t is None:
+                # a field of an SMT-heap object has the type its class model declares
+                o = fr.vars.get(target.value.id)
+                if o is not None and o.kind == "sobj" and o.cname in self.class_models:
+                    t = self.class_models[o.cname].fields.get(target.attr)
+            return t
         return None
 
     def new_slist(self, elem, name):
@@ -1254,8 +1259,29 @@ class Interp(Ops, Builtins, DynOps):
         raise EngineError(f"try statement (line {s.lineno})")
 
     # ------------------------------------------------------------------ for loops
+    @staticmethod
+    def _iter_makes_only_temporaries(e):
+        """the lists allocated while evaluating this iterable expression are referenced by the iterator alone:
+        slices of named lists, wrapped in enumerate / zip / reversed"""
+        if isinstance(e, (ast.Name, ast.Attribute, ast.Constant)):
+            return True
+        if isinstance(e, ast.Subscript) and isinstance(e.slice, ast.Slice):
+            parts = [e.slice.lower, e.slice.upper, e.slice.step]
+            return Interp._iter_makes_only_temporaries(e.value) and all(p is None or isinstance(p, (ast.Constant, ast.Name, ast.UnaryOp, ast.BinOp)) for p in parts)
+        if isinstance(e, ast.Call) and isinstance(e.func, ast.Name) and e.func.id in ("enumerate", "zip", "reversed") and not e.keywords:
+            return all(Interp._iter_makes_only_temporaries(a) for a in e.args)
+        return False
+
     def st_For(self, s, fr):
+        n_fresh = len(self.ctx.fresh_refs)
         it = self.ev(s.iter, fr)
+        if self._iter_makes_only_temporaries(s.iter):
+            # e.g. `for x in xs[1:]`: the slice is a new list nobody but the iterator can reach, so the loop body cannot change it
+            self.ctx.loop_temporaries = getattr(self.ctx, "loop_temporaries", []) + list(self.ctx.fresh_refs[n_fresh:])
+            for r in self.ctx.fresh_refs[n_fresh:]:
+                # their defining facts survive the context reset at the cut (the lists are not havocked)
+                for d in getattr(self.ctx, "list_defs", {}).get(r.get_id(), []):
+                    self.ctx.keep_ids.add(d.get_id())
         sym = self.symbolic_iter(it, s)
         if sym is None:
             items = self.iter_concrete(it, s.iter)
@@ -1371,6 +1397,7 @@ class Interp(Ops, Builtins, DynOps):
             except _Break:
                 return          # continue after the loop with the state at the break
             check_inv(idx + 1, "preserve")
+            self._loop_attrs = attrs
             self.loop_frame_check(tag, spec, fr, wmark, s)
             raise PathEnd()
         else:
@@ -1385,7 +1412,17 @@ class Interp(Ops, Builtins, DynOps):
         ctx = self.ctx
         allowed = [self.eval_spec(tx, fr).z for tx in spec.modifies]
         seen = set()
+        havocked = set()
+        for (on, an) in getattr(self, "_loop_attrs", ()):
+            o = fr.lookup(on)
+            if o is not None and o.kind == "ref" and o.rkind == "obj":
+                havocked.add((o.addr, an))
         for w in ctx.written[wmark:]:
+            if w[0] == "cell":
+                # a store into a pre-existing concrete object: accounted for iff the cut havocked that attribute (assigned in the loop body's own text)
+                if (w[1], w[2]) not in havocked:
+                    ctx.oblige(f"{tag}.frame.store_into_pre_existing_object_not_in_the_loop_frame.{w[2]}", z3.BoolVal(False), w[3], kind="frame")
+                continue
             ref = w[1] if w[0] == "list" else w[3]
             k = (w[0], ref.get_id()) + ((w[1], w[2]) if w[0] == "field" else ())
             if k in seen:
@@ -1413,7 +1450,8 @@ class Interp(Ops, Builtins, DynOps):
                     cell[an] = self.fresh_like(cell[an], f"{on}.{an}", node)
             elif o.kind == "sobj":
                 self.havoc_field(o.cname, an)
-        fresh = list(ctx.fresh_refs)
+        temps = {t.get_id() for t in getattr(ctx, "loop_temporaries", [])}
+        fresh = [r for r in ctx.fresh_refs if r.get_id() not in temps]
         extra = []
         for tx in spec.modifies:
             mv = self.eval_spec(tx, fr)
@@ -1563,6 +1601,16 @@ class Interp(Ops, Builtins, DynOps):
                     return VSList(r, t.elem)
                 return self.ev(e.args[1], fr)
             raise EngineError(f"local('{nm}') is unbound on this path")
+        if name == "well_typed":
+            # the reference has the dynamic type its static type says (and is not None unless nullable)
+            v = self.ev(e.args[0], fr)
+            if v.kind == "slist":
+                t = TSList(v.elem, getattr(v, "nullable", False))
+            elif v.kind == "sobj":
+                t = TSObj(v.cname, v.nullable)
+            else:
+                raise EngineError(f"well_typed of {v}")
+            return VBool(z3.And(*t.facts(v, ctx)))
         if name == "is_old":
             v = self.ev(e.args[0], fr)
             return VBool(ctx.is_old(v.z))
